@@ -39,7 +39,7 @@ PROP_UNITS = {
     'C07': ['expr', 'elim', 'matrix', 'regexp', 'builder', 'split', 'escaper', 'caseconv', 'rep', 'splice', 'gates', 'render', 'format', 'order', 'dfa', 'minimize', 'trie', 'cli', 'escape', 'classify', 'nested'],
     'C08': ['render', 'expr', 'regexp', 'format'],
     'C09': ['tables', 'classify'],
-    'C10': ['builder', 'regexp', 'gates', 'order'],
+    'C10': ['builder', 'regexp', 'gates', 'order', 'dfa'],
     'C11': ['escape', 'builder', 'format', 'nested'],
     'C12': ['cli', 'gates'],
     'C13': ['rep', 'splice', 'builder', 'render', 'trie'],
